@@ -8,6 +8,7 @@ import FormakVerif.Model.Expr
 import FormakVerif.Model.PyModel
 import FormakVerif.Model.Runtime
 import FormakVerif.Model.Ekf
+import FormakVerif.Model.Iface
 import FormakVerif.Model.Validate
 import FormakVerif.Model.Sklearn
 import FormakVerif.Model.Workflow
@@ -345,6 +346,19 @@ def opEmitted (j : Json) : Except String Json := do
     ("sensors", Json.arr (e.sensors.map fun s => Json.mkObj [("key", Json.str s.key), ("readings", strs s.readings), ("noise", rats s.noise),
       ("jac", match s.jac with | some u => (u.length : Nat) | none => Json.null)]).toArray)])
 
+def opIface (j : Json) : Except String Json := do
+  let d ← jEkfDef (← j.getObjVal? "ekf")
+  let maxDt ← jRat (← j.getObjVal? "maxdt")
+  let i := d.iface maxDt
+  let strs (l : List String) : Json := Json.arr (l.map Json.str).toArray
+  let ty : TagTy → Json := fun t => match t with | .falseType => Json.str "std::false_type" | .named s => Json.str s
+  return okJ (Json.mkObj [("StateAndVarianceT", ty i.stateAndVarianceT), ("CalibrationT", ty i.calibrationT), ("ControlT", ty i.controlT),
+    ("StampedReadingBaseT", ty i.stampedReadingBaseT), ("processArgs", strs i.processArgs), ("readingArgs", strs i.readingArgs),
+    ("sensorIds", strs i.sensorIds), ("compatible", Json.bool (Managed.compatible i)), ("configAccepts", Json.bool (Managed.configAccepts maxDt)),
+    ("processCall", strs (Managed.processCall i)), ("readingCall", strs (Managed.readingCall i)),
+    ("ctorOverloads", Json.arr ((Managed.ctorOverloads i).map strs).toArray),
+    ("tickOverloads", Json.arr ((Managed.tickOverloads i).map fun (c, r) => Json.arr #[Json.bool c, Json.bool r]).toArray)])
+
 def doPredict (d : EkfDef) (p : Point) (P : QMat d.n d.n) : Except String (List Rat × QMat d.n d.n) := do
   let env := processEnv d p
   let G ← opt "undefined" (d.processJacobian env)
@@ -579,6 +593,7 @@ def dispatch (j : Json) : Except String Json := do
   | "predict" => opPredict j
   | "update" => opUpdate j
   | "emitted" => opEmitted j
+  | "iface" => opIface j
   | "decide" => opDecide j
   | "accept" => opAccept j
   | "skeleton" => opSkeleton j
